@@ -4,6 +4,7 @@ package main
 
 import (
 	"fmt"
+	"regexp"
 	"go/token"
 	"go/types"
 	"sort"
@@ -1675,9 +1676,52 @@ func (e *Engine) staticTypeOfSpecExpr(spec *FuncSpec, x *Expr) types.Type {
 	return nil
 }
 
+// reachablePkgs: names of the packages the unit's package imports, transitively (plus itself)
+func reachablePkgs(p *types.Package) map[string]bool {
+	out := map[string]bool{}
+	var walk func(q *types.Package)
+	walk = func(q *types.Package) {
+		if q == nil || out[q.Path()] {
+			return
+		}
+		out[q.Path()] = true
+		for _, i := range q.Imports() {
+			walk(i)
+		}
+	}
+	walk(p)
+	names := map[string]bool{}
+	for path := range out {
+		if i := strings.LastIndexByte(path, '/'); i >= 0 {
+			names[path[i+1:]] = true
+		} else {
+			names[path] = true
+		}
+	}
+	return names
+}
+
 func (st *State) assumeGlobalInvs() {
 	e := st.eng()
+	var reach map[string]bool
+	if st.u.fn.Pkg != nil {
+		reach = reachablePkgs(st.u.fn.Pkg.Pkg)
+	}
 	for _, g := range e.specs.Globals {
+		// only invariants about packages this unit's package can reach (keeps the contexts small)
+		if reach != nil {
+			pk := g.PkgName
+			if pk == "prelude" || pk == "" {
+				// external catalogue: the package name is the first identifier of the text
+				txt := strings.TrimSpace(strings.TrimPrefix(strings.TrimSpace(g.Text), ":"))
+				if m := regexp.MustCompile(`([A-Za-z_][A-Za-z0-9_]*)\.`).FindStringSubmatch(txt); m != nil {
+					pk = m[1]
+				}
+			}
+			if pk != "" && pk != "prelude" && !reach[pk] {
+				continue
+			}
+		}
 		var tp *types.Package
 		if p, ok := e.ld.pkgByNm[g.PkgName]; ok {
 			tp = p.Types
